@@ -12,10 +12,13 @@ LEVEL_TEXT = (
     'only skip; the three classification tables (discovery_is_failure, discovery_classification, '
     'assert_properties) agree per Expectation variant; every worker return is one of the sanctioned '
     'exits; assert_no_discovery / assert_any_discovery diverge on the right side and is_done is '
-    'closed-market OR all-discovered. Does not decide the only-if direction semantically (that is '
-    'C01 plus these).')
+    'closed-market OR all-discovered; plus the state-space coverage rules of C01 (R1-R5, R7, R9, R10), '
+    'because "if and only if some reachable state violates it" presupposes that every reachable '
+    'in-boundary state is evaluated. The equivalence itself is an argument over these clauses, not a '
+    'computation.')
 
-FLOORS = {'C02-R1': 16, 'C02-R2': 12, 'C02-R3': 9, 'C02-R4': 4, 'C02-R5': 10}
+FLOORS = {'C02-R1': 16, 'C02-R2': 12, 'C02-R3': 9, 'C02-R4': 4, 'C02-R5': 10, 'C01-R1': 3, 'C01-R2': 3,
+          'C01-R3': 12, 'C01-R4': 5, 'C01-R5': 3, 'C01-R7': 5, 'C01-R9': 3, 'C01-R10': 4}
 
 
 def r1_polarity(ctx, cb):
@@ -338,3 +341,6 @@ def run(ctx):
             r4_worker_exits(ctx, F, strat)
     r3_tables(ctx, F)
     r5_asserts(ctx, F)
+    # the iff presupposes that every reachable in-boundary state is evaluated: C01's coverage rules
+    import c01
+    c01.coverage_rules(ctx, F)
